@@ -128,6 +128,18 @@ def run(ctx):
         if cn[0] == 'bin' and cn[1] in ('Ge', 'Gt') and cn[2][0] == 'loop' and cn[3][0] == 'int':
             thr = (b, cn)
     if thr is None:
+        # not a per-move counter: is the compared quantity taken from the size / indices of the ACTION log?
+        LOGLEN = call('alloc::vec::Vec::<T, A>::len', ('field', SELF, 'moves'))
+        for b, c in s.switches.items():
+            cn = norm(c)
+            if cn[0] == 'bin' and cn[1] in ('Ge', 'Gt') and cn[3][0] == 'int' and 90 <= cn[3][1] <= 110:
+                uses_log = any(match(LOGLEN, x) is not None for x in walk(cn[2]) if isinstance(x, tuple)) or \
+                    any(isinstance(x, tuple) and len(x) > 1 and x[0] == 'call' and 'Enumerate' in str(x[1]) for x in walk(cn[2]))
+                if uses_log:
+                    ctx.violation('C11.R2', KEY + ':counts-actions', 'the quantity compared with %d is computed from the length / indices of the action '
+                                  'log (%s): draw offers are entries of that log too, so an ignored offer counts as a half-move towards the '
+                                  'fifty-move rule' % (cn[3][1], sh(cn[2], 120)), where(body, body.blocks[b]['term'].get('line')))
+                    return
         ctx.inconclusive('C11.R2', 'no `counter >= N` test on a loop-carried integer found in can_declare_draw')
         return
     tb, tc = thr
@@ -249,7 +261,7 @@ def run(ctx):
             ctx.ok('C11.R2', 'counter per MakeMove: +1 on every other move; unchanged by non-move actions (16 cases)', w)
     for st in zero:
         ctx.instance('C11.R1', 'reset site', where(body, st['line']))
-    ctx.floor('C11.R1', 'counter resets inside the replay loop', len(zero), 2)
+    ctx.floor('C11.R1', 'counter resets inside the replay loop', len(zero), 1)
     # --- R4 list discipline
     lst = None
     pushes = [c for c in s.calls if c['callee'] == 'alloc::vec::Vec::<T, A>::push']
